@@ -300,6 +300,25 @@ def numeric_kernel_oracles(rng, res, nmax=200, quick=True):
                 res['violations'].append(dict(key='fmin:shift', what='fourier_minimum not invariant under cyclic shift, N=%d: %.12g vs %.12g' % (n, v, v2)))
             if abs(v - true_min) > 1e-8:
                 res['violations'].append(dict(key='fmin:value', what='fourier_minimum %.12g differs from the minimum of the interpolant %.12g, N=%d' % (v, true_min, n)))
+    # Newton on systems whose full step lands where the residual is NaN / inf: the returned point is never worse than the initial guess
+    try:
+        import logging
+        from qsc.newton import newton
+        logging.disable(logging.CRITICAL)
+        cases = [(lambda x: np.log(x), lambda x: np.diag(1.0 / x), np.array([5.0])), (lambda x: np.log(x), lambda x: np.diag(1.0 / x), np.array([20.0, 7.0])),
+                 (lambda x: np.exp(2 * x) - 3 * np.exp(x) + 2, lambda x: np.diag(2 * np.exp(2 * x) - 3 * np.exp(x)), np.array([-3.0])),
+                 (lambda x: np.sqrt(x) - 1.0, lambda x: np.diag(0.5 / np.sqrt(x)), np.array([9.0]))]
+        for f, jac, x0 in cases:
+            with np.errstate(all='ignore'):
+                xb = newton(f, x0.copy(), jac=jac, niter=8)
+                r0, rb = np.sqrt(np.sum(f(x0) ** 2)), np.sqrt(np.sum(f(np.asarray(xb, dtype=float)) ** 2))
+            checked += 1
+            if not (rb <= r0):
+                res['violations'].append(dict(key='newton:worse', what='newton returned a point with residual norm %r from an initial guess with %r (a trial step landed on a non-finite residual)' % (float(rb), float(r0)),
+                                              x0=[float(v) for v in x0]))
+        logging.disable(logging.NOTSET)
+    except Exception as e:
+        res['violations'].append(dict(key='newton:raise', what='newton raised %s on a scalar test system' % type(e).__name__))
     # spectral minimum on ROUGH multi-well data: whenever it returns (a valid bracket was found), the value does not exceed any sample
     # and is shift invariant up to the choice among wells of equal depth
     nrough = 60 if quick else 400
